@@ -15,14 +15,14 @@
 
    FULL STATEMENT (redesign_fixpoint): proved as C17_redesign_line_fixpoint for a whole line (fibres, fused, inserted
    and user amplifiers with their settings) in power mode with EOL = 0 and no Raman fibre, under checkable conditions
-   on the first design: designed fibres on the export grid (grid_ok) and strictly below max_length once exported
-   (short_ok), distinct amplifier uids.  Not covered by that theorem: a span whose exported length equals max_length
-   exactly (needs idempotence of calculate_new_length at the boundary), Raman spans (the estimate is an input), and
+   on the first design: designed fibres on the export grid (grid_ok), distinct amplifier uids.  That no span is
+   split again is proved (C17_split_idempotent: calculate_new_length never splits a span it produced, including the
+   boundary length = max_length).  Not covered by that theorem: Raman spans (the estimate is an input), and
    the composition for gain mode, where C17_gain_mode_rounding / C17_gain_mode_exact give the amplifier side:
    equality of everything but gain_target, gain_target within (k + 4) half-units of the 6th decimal for the k-th
    amplifier of the OMS, exact equality when the designed gains lie on the export grid.  Those remaining cases are
    covered by the correspondence / oracle of the check. *)
-From Verif Require Import Prelude Model.Chain Model.Redesign Proofs.Chain Proofs.Redesign Proofs.RedesignLine.
+From Verif Require Import Prelude Model.Chain Model.Redesign Proofs.Chain Proofs.ChainSplit Proofs.Redesign Proofs.RedesignLine.
 From Coq Require Import QArith Lia.
 Open Scope Z_scope.
 
@@ -37,19 +37,25 @@ Print Assumptions C17_redesign_fixpoint_partial.
 Theorem C17_redesign_line_fixpoint : forall c s lib sel rgain opsf D0 ptot x L1 outs1,
   pm_ok s lib -> (c_eol c == 0)%Q -> c_min c <= c_max c -> no_auto (l_els x) -> (forall n, i_name (opsf n) = n) ->
   design_full c s lib sel rgain opsf D0 ptot x = Ok (L1, outs1) ->
-  l_els L1 <> [] -> Forall grid_ok (l_els L1) -> Forall (short_ok c) (export_els (l_els L1)) ->
+  l_els L1 <> [] -> Forall grid_ok (l_els L1) ->
   has_raman (l_els L1) = false -> NoDup (map o_name outs1) ->
   exists r2, design_full c s lib sel rgain (ops_of (snd (export_full (L1, outs1)))) D0 ptot
                          (reload_full x (export_full (L1, outs1))) = Ok r2 /\
              export_full r2 = export_full (L1, outs1).
 Proof. exact redesign_line_fixpoint. Qed.
 Print Assumptions C17_redesign_line_fixpoint.
+(* calculate_new_length never splits a span it produced (every length, every configuration with min <= max) *)
+Theorem C17_split_idempotent : forall L mn mx tg len n L',
+  0 < tg -> tg <= mx -> mn <= mx -> calc_len L mn mx tg = Ok (len, n) -> (L' == len)%Q ->
+  exists len', calc_len L' mn mx tg = Ok (len', 1).
+Proof. exact calc_len_idem. Qed.
+Print Assumptions C17_split_idempotent.
 (* its fibre side alone (either mode): the reloaded line is designed into itself *)
 Theorem C17_redesign_line_fibres : forall c x L1, (c_eol c == 0)%Q -> c_min c <= c_max c -> no_auto (l_els x) ->
-  design_line c x = Ok L1 -> l_els L1 <> [] -> Forall grid_ok (l_els L1) -> Forall (short_ok c) (export_els (l_els L1)) ->
+  design_line c x = Ok L1 -> l_els L1 <> [] -> Forall grid_ok (l_els L1) ->
   design_line c (with_els x (export_els (l_els L1))) = Ok (with_els x (conn c (export_els (l_els L1)))) /\
   export_els (conn c (export_els (l_els L1))) = export_els (l_els L1).
-Proof. intros c x L1 H0 Hc Hn H Hne Hg Hs. destruct (fibre_round c x L1 H0 Hc Hn H Hne Hg Hs) as [A _ _ B _ _]. split; assumption. Qed.
+Proof. intros c x L1 H0 Hc Hn H Hne Hg. destruct (fibre_round c x L1 H0 Hc Hn H Hne Hg) as [A _ _ B _ _]. split; assumption. Qed.
 Print Assumptions C17_redesign_line_fibres.
 
 (* gain mode: the redesign of the exported OMS reproduces everything but gain_target exactly; the k-th gain lies
@@ -154,7 +160,7 @@ Example C17_ex_line_hyps : exists L1 outs1,
   design_full exl_cfg ex_s ex_lib ex_sel (fun _ => 0%Q) (ops_of []) (-20) (198 # 10) exl_line = Ok (L1, outs1) /\
   pm_ok ex_s ex_lib /\ (c_eol exl_cfg == 0)%Q /\ c_min exl_cfg <= c_max exl_cfg /\ no_auto (l_els exl_line) /\
   (forall n, i_name (ops_of [] n) = n) /\
-  l_els L1 <> [] /\ Forall grid_ok (l_els L1) /\ Forall (short_ok exl_cfg) (export_els (l_els L1)) /\
+  l_els L1 <> [] /\ Forall grid_ok (l_els L1) /\
   has_raman (l_els L1) = false /\ NoDup (map o_name outs1) /\
   map o_name outs1 = ["Edfa_booster_A_to_f1"; "Edfa_f1"; "Edfa_preamp_B_from_f2"]%string.
 Proof. exact exl_hyps. Qed.
